@@ -9,6 +9,14 @@ def G(name, cfg, module="Gen_Fn.tla", **kw):
 def D(group, nq, nt):
     return {"group": group, "n_quick": nq, "n_thorough": nt}
 
+def schema_events(wd, quick, seed):
+    import sys, os, json
+    sys.path.insert(0, os.path.join(os.path.dirname(os.path.abspath(__file__)), "tools"))
+    import schema_tables
+    evs, P = schema_tables.events("/repo")
+    evs.append({"ev": "artifact_file", "case": "legacy-artifact", "src": "static", "in": {"path": "/repo/data/random_lp_instance.ommx"}})
+    return evs
+
 PLAN = {
     "C01": {
         "gen": [G("eval", "Gen_Fn_Eval.cfg")],
@@ -30,6 +38,14 @@ PLAN = {
     },
     "C05": {"drive": [D("evaluate", 2000, 100000)]},
     "C06": {"drive": [D("samples", 1000, 50000)]},
+    "C07": {
+        "schema": True,
+        "gen": [G("wire", "Gen_Wire.cfg", module="Gen_Wire.tla")],
+        "drive": [D("wire", 600, 20000)],
+        "static": [schema_events],
+        "exhaustive_note": "every message type of the schema x {empty, all fields set at depth 1..2 x 4 oneof arms x 8 layouts, each field alone x 4 layouts}; all 31 message and 5 enum tables compared three ways",
+        "chunk": 800,
+    },
     "C08": {
         "gen": [G("faults", "Gen_Validate.cfg", module="Gen_Validate.tla")],
         "drive": [D("validate", 500, 20000)],
@@ -94,6 +110,7 @@ OWN = {
     "C16": {"bound_op": "*", "eval_bound": "*", "content_factor": "*"},
     "C05": {"evaluate": "*"},
     "C06": {"evaluate_samples": "*"},
+    "C07": {"schema_msg": "*", "schema_enum": "*", "wire_decode": "*", "wire_encode": "*", "artifact_file": "*"},
     "C08": {"validate": "*", "pvalidate": "*", "typed": "*"},
     "C09": {"penalty": "*", "uniform_penalty": "*"},
     "C10": {"with_parameters": "*", "to_parametric": "*"},
